@@ -92,6 +92,53 @@ var strPool = []string{`""`, `"a"`, `"0"`, `"-1"`, `"abc"`, `"%"`, `"("`, `"[a-"
 var timePool = []string{"now", "time.add(now, 9999999h)", "time.sub(now, 9999999h)", "std.integer2time(0)", "std.integer2time(-1)", "std.integer2time(253402300800)", "std.time(\"garbage\", now)"}
 var ipPool = []string{"client.ip", "server.ip", "std.ip(\"::\", \"127.0.0.1\")", "std.ip(\"255.255.255.255\", \"::1\")", "std.str2ip(\"bogus\", \"192.0.2.1\")"}
 
+// idHints: for the functions whose ID parameters name a declared object or a
+// fixed keyword, the identifiers that make the call reach its real work, by
+// position among the ID parameters. Three times out of four the hint is used.
+var idHints = map[string][]string{
+	"ratelimit.check_rate":            {"rc_a", "pb_a"},
+	"ratelimit.check_rates":           {"rc_a", "rc_b", "pb_a"},
+	"ratelimit.penaltybox_add":        {"pb_a"},
+	"ratelimit.penaltybox_has":        {"pb_a"},
+	"ratelimit.ratecounter_increment": {"rc_a"},
+	"crypto.encrypt_base64":           {"aes128", "cbc", "pkcs7"},
+	"crypto.encrypt_hex":              {"aes128", "cbc", "pkcs7"},
+	"crypto.decrypt_base64":           {"aes128", "cbc", "pkcs7"},
+	"crypto.decrypt_hex":              {"aes128", "cbc", "pkcs7"},
+	"digest.rsa_verify":               {"sha256", "standard"},
+	"header.get":                      {"req"},
+	"header.set":                      {"req"},
+	"header.unset":                    {"req"},
+	"header.filter":                   {"req"},
+	"header.filter_except":            {"req"},
+}
+
+// intHints: integer parameters with a small set of accepted values.
+var intHints = map[string][]string{
+	"ratelimit.check_rate":  {"1", "10", "60", "100"},
+	"ratelimit.check_rates": {"1", "10", "60", "100"},
+}
+
+func argForCall(c *worker.Ctx, fname, typ string, idIndex *int) string {
+	switch typ {
+	case "ID":
+		k := *idIndex
+		*idIndex++
+		if h := idHints[fname]; k < len(h) && c.T.Bool(3, 4) {
+			return h[k]
+		}
+	case "INTEGER":
+		if h := intHints[fname]; h != nil && c.T.Bool(3, 4) {
+			return h[c.T.Draw(len(h))]
+		}
+	case "STRING":
+		if strings.HasPrefix(fname, "ratelimit.") && c.T.Bool(1, 2) {
+			return `"client-a"`
+		}
+	}
+	return argFor(c, typ)
+}
+
 func argFor(c *worker.Ctx, typ string) string {
 	switch typ {
 	case "STRING":
@@ -135,7 +182,7 @@ func builtinProgram(c *worker.Ctx) (string, string) {
 	}
 	var b strings.Builder
 	b.WriteString("backend F_origin { .host = \"origin.test\"; .port = \"80\"; .first_byte_timeout = 5s; }\n")
-	b.WriteString("table tbl_s { \"k\": \"v\", \"\": \"e\" }\ntable tbl_i INTEGER { \"k\": 1 }\ntable tbl_empty {}\nacl acl_a { \"10.0.0.0\"/8; !\"10.1.0.0\"/16; }\nacl acl_empty {}\nratecounter rc_a {}\npenaltybox pb_a {}\n")
+	b.WriteString("table tbl_s { \"k\": \"v\", \"\": \"e\" }\ntable tbl_i INTEGER { \"k\": 1 }\ntable tbl_empty {}\nacl acl_a { \"10.0.0.0\"/8; !\"10.1.0.0\"/16; }\nacl acl_empty {}\nratecounter rc_a {}\nratecounter rc_b {}\npenaltybox pb_a {}\n")
 	bodies := map[string]*strings.Builder{}
 	var names []string
 	n := 1 + c.T.Draw(4)
@@ -154,8 +201,9 @@ func builtinProgram(c *worker.Ctx) (string, string) {
 			sig = f.Args[c.T.Draw(len(f.Args))]
 		}
 		args := make([]string, len(sig))
+		idIndex := 0
 		for k, t := range sig {
-			args[k] = argFor(c, t)
+			args[k] = argForCall(c, f.Name, t, &idIndex)
 		}
 		// occasionally drop or add an argument (arity errors must be reported, not crash)
 		if len(args) > 0 && c.T.Bool(1, 10) {
